@@ -114,7 +114,7 @@ structure Thread where
   prog : List Step               -- remaining steps
   mode : Mode                    -- which lock section the thread is in
   snap : Mem                     -- ghost: memory when the current section was entered
-  seen : List (Field × Nat × Nat) -- ghost: (field, value read, value it had at section entry), R sections only
+  seen : List (Mode × Field × Nat × Nat) -- ghost: (section mode at the read, field, value read, value at section entry)
 
 structure St where
   mem : Mem
@@ -133,7 +133,7 @@ def Thread.leave (t : Thread) (p : List Step) : Thread :=
   { prog := p, mode := .n, snap := t.snap, seen := t.seen }
 def Thread.didRead (t : Thread) (p : List Step) (f : Field) (v : Nat) : Thread :=
   { prog := p, mode := t.mode, snap := t.snap,
-    seen := if t.mode = .r then (f, v, t.snap f) :: t.seen else t.seen }
+    seen := (t.mode, f, v, t.snap f) :: t.seen }
 def Thread.didWrite (t : Thread) (p : List Step) : Thread :=
   { prog := p, mode := t.mode, snap := t.snap, seen := t.seen }
 
